@@ -44,6 +44,8 @@ pub struct PropDef {
     pub assumptions: &'static [&'static str],
     pub run: fn(&Ctx, &Env) -> Stats,
     pub replay: fn(&serde_json::Value, &Env) -> CheckResult,
+    /// decode a libFuzzer input with the property's generator and check it (fuzz crash replay)
+    pub from_bytes: Option<fn(&[u8], &Env) -> (serde_json::Value, CheckResult)>,
 }
 
 pub fn all_props() -> Vec<&'static PropDef> {
@@ -193,13 +195,36 @@ pub fn main_entry() -> i32 {
     let env = Env { tables, checks: cfg!(feature = "checks"), no_copy_impls: cfg!(feature = "no_copy_impls"), debug_assertions: cfg!(debug_assertions) };
     let verif = std::env::var("VERIF_DIR").unwrap_or_else(|_| "/verif".into());
     if let Some(path) = get("--replay") {
-        let txt = match std::fs::read_to_string(&path) {
+        let raw = match std::fs::read(&path) {
             Ok(t) => t,
             Err(e) => {
                 println!("cannot read {}: {}", path, e);
                 return 2;
             }
         };
+        let as_json = std::str::from_utf8(&raw).ok().and_then(|t| serde_json::from_str::<serde_json::Value>(t).ok()).filter(|v| v.is_object());
+        if as_json.is_none() {
+            // a libFuzzer input: decode it with the property's generator
+            let Some(fb) = def.from_bytes else {
+                println!("{} is not a replay file and {} has no fuzz target", path, def.id);
+                return 2;
+            };
+            let (case, res) = fb(&raw, &env);
+            println!("decoded fuzz input {} as case {}", path, case);
+            return match res {
+                Ok(_) => {
+                    println!("replay {}: property holds on this case in build {}", path, build_name());
+                    0
+                }
+                Err(f) => {
+                    println!("VIOLATION property={} replay={}", def.id, path);
+                    println!("  build={} signature={}", build_name(), f.sig);
+                    println!("  {}", f.msg);
+                    1
+                }
+            };
+        }
+        let txt = String::from_utf8_lossy(&raw).to_string();
         let v: serde_json::Value = match serde_json::from_str(&txt) {
             Ok(v) => v,
             Err(e) => {
@@ -229,6 +254,27 @@ pub fn main_entry() -> i32 {
     let out = get("--out").unwrap_or_else(|| format!("{}/evidence/parts/{}-{}.json", verif, id, build_name()));
     let ctx = Ctx { property: id.clone(), tier, seed, build: build_name(), replay_dir: format!("{}/replays", verif) };
     let t0 = std::time::Instant::now();
+    // regression corpus: every saved failing input of this property is re-executed first
+    let mut corpus_stats = Stats::default();
+    {
+        let dir = format!("{}/corpus/{}", verif, id);
+        let mut files: Vec<_> = std::fs::read_dir(&dir).map(|d| d.filter_map(|e| e.ok()).map(|e| e.path()).collect()).unwrap_or_default();
+        files.sort();
+        let mut part = vcore::engine::Part::new(&ctx, "corpus", "saved failing inputs (defects repaired in /repo, seeded changes) re-executed first", true);
+        for f in files {
+            let Ok(txt) = std::fs::read_to_string(&f) else { continue };
+            let Ok(v) = serde_json::from_str::<serde_json::Value>(&txt) else { continue };
+            let case = v.get("case").cloned().unwrap_or(v.clone());
+            let name = f.file_name().map(|n| n.to_string_lossy().to_string()).unwrap_or_default();
+            let wrapped = serde_json::json!({"corpus_file": name, "case": case});
+            part.check(&wrapped, &|w: &serde_json::Value| (def.replay)(&w["case"], &env).map(|mut o| {
+                o.nontrivial = true;
+                o.label("corpus_case");
+                o
+            }));
+        }
+        corpus_stats.merge(part.finish());
+    }
     let stats = match vcore::engine::guarded(|| (def.run)(&ctx, &env)) {
         Ok(s) => s,
         Err(p) => {
@@ -238,6 +284,7 @@ pub fn main_entry() -> i32 {
     };
     let wall = t0.elapsed().as_secs_f64();
     let mut stats = stats;
+    stats.merge(corpus_stats);
     stats.notes.push(format!("table domain measured from diagnostics: {:?}", env.tables.allowed));
     vcore::engine::conclude(&ctx, stats, def.rule, def.assumptions, wall, &out, &format!("{}/known_findings.json", verif))
 }
